@@ -172,22 +172,27 @@ pub fn uses_cram_3_1_codecs(block_content_encoder_map: &BlockContentEncoderMap) 
     fn is_cram_3_1_codec(encoder: &Encoder) -> bool {
         matches!(
             encoder,
-            Encoder::RansNx16(_) | Encoder::AdaptiveArithmeticCoding(_) | Encoder::NameTokenizer
+            Encoder::RansNx16(_)
+                | Encoder::AdaptiveArithmeticCoding(_)
+                | Encoder::NameTokenizer
+                | Encoder::Fqzcomp
         )
     }
 
-    if let Some(encoder) = block_content_encoder_map.core_data_encoder()
-        && is_cram_3_1_codec(encoder)
-    {
-        return true;
-    }
-
-    block_content_encoder_map
-        .data_series_encoders()
-        .iter()
-        .chain(block_content_encoder_map.tag_values_encoders().values())
-        .flatten()
-        .any(is_cram_3_1_codec)
+    [
+        block_content_encoder_map.core_data_encoder(),
+        block_content_encoder_map.default_encoder(),
+    ]
+    .into_iter()
+    .flatten()
+    .chain(
+        block_content_encoder_map
+            .data_series_encoders()
+            .iter()
+            .chain(block_content_encoder_map.tag_values_encoders().values())
+            .flatten(),
+    )
+    .any(is_cram_3_1_codec)
 }
 
 #[cfg(test)]
